@@ -30,7 +30,7 @@ CASE_LIMIT = {"quick": 120, "thorough": 300}
 PROFILE = {"methods": ["MS", "SS", "DC"], "alg": 0.4, "intgs": ["rk", "expl_euler"],
            "grids": ["uniform", "uniform", "geometric", "function", "free", "uniform_loc", "geometric_loc"],
            "t0_kinds": ["num", "free", "param"], "T_kinds": ["num", "free", "free", "param"],
-           "N": [1, 2, 3, 4], "M": [1, 2, 3], "degrees": [1, 2, 3, 4], "scales": True, "quad_states": 0.0}
+           "N": [1, 2, 3, 4], "M": [1, 2, 3], "degrees": [1, 2, 3, 4], "scales": True, "quad_states": 0.0, "per_interval_matrix": False}
 
 
 def time_expr(rng):
